@@ -14,7 +14,7 @@
   that order is an explicit oracle argument (`evalStat f order`); the output formats read the dict back
   in view order, and the theorems in Props/C06.lean state that no format depends on the oracle.
 
-  The model describes the code with proposed_fixes/C06-*.diff applied (finding F6):
+  The model describes the code after the fixes of finding F6 (in /repo since f2218c9, 8eb4626):
     (a) `aspandas()` (single stat and multi) is indexed in view order;
     (b) `EdgeView.maximal()` treats an empty edge by the definition (it is contained in every edge).
   No Mathlib.
@@ -234,7 +234,71 @@ def multiAspandas (view : List PyId) (cols : List (String × List (PyId × α)))
   let result := cols.map (fun c => (c.1, asdict view c.2))
   (view, result.map (·.1), view.map (fun n => result.map (fun c => dget c.2 n)))
 
+/-- `MultiIDStat.asnumpy()`: `np.array(self.aslist(inner=list))` — a 2-d array is the list of its rows
+    (rows = IDs of the view, columns = stats); definitional, numpy is an oracle -/
+def multiAsnumpy (view : List PyId) (cols : List (String × List (PyId × α))) : List (List α) :=
+  multiAslist view cols
+
 end formats
+
+/-! ### aggregates of one numeric statistic (`IDStat.max/min/sum/mean/median/var/moment/argmax/argmin/argsort/unique`)
+
+  All of them read `asdict()` / `asnumpy()`; `vals` is `aslist()` as rationals, `f` the value per ID.
+  numpy's reductions appear as the pure functions they are documented to be (exact arithmetic; the
+  correspondence check compares floats by the float rule).  `std` is the square root of `var` and is
+  compared at run time only. -/
+
+/-- insert `x` in front of the first element it is `le` to -/
+def insertBy {α : Type} (le : α → α → Bool) (x : α) : List α → List α
+  | [] => [x]
+  | y :: t => if le x y then x :: y :: t else y :: insertBy le x t
+
+/-- stable insertion sort: what `sorted` / `np.sort` return for a total preorder `le` (every stable sort
+    returns the same list; structural recursion, so it evaluates by `decide`) -/
+def sortBy {α : Type} (le : α → α → Bool) (l : List α) : List α := l.foldr (insertBy le) []
+
+/-- `max(...)`: the first largest element (Python's `max` keeps the first maximum) -/
+def aggMax (vals : List Rat) : Option Rat :=
+  vals.foldl (fun acc v => match acc with | none => some v | some m => if m < v then some v else some m) none
+def aggMin (vals : List Rat) : Option Rat :=
+  vals.foldl (fun acc v => match acc with | none => some v | some m => if v < m then some v else some m) none
+def aggSum (vals : List Rat) : Rat := vals.sum
+/-- `np.mean` -/
+def aggMean (vals : List Rat) : Rat := vals.sum / (vals.length : Rat)
+/-- `np.mean(arr ** k)`: the raw moment (`moment(order=k, center=False)`) -/
+def aggMoment (k : Nat) (vals : List Rat) : Rat := aggMean (vals.map (· ^ k))
+/-- `scipy.stats.moment(arr, moment=k)`: the central moment (`moment(order=k, center=True)`); `var` is `k = 2` -/
+def aggCMoment (k : Nat) (vals : List Rat) : Rat := aggMean (vals.map (fun v => (v - aggMean vals) ^ k))
+def aggVar (vals : List Rat) : Rat := aggCMoment 2 vals
+/-- `np.median`: middle element of the sorted values, or the mean of the two middle ones -/
+def aggMedian (vals : List Rat) : Rat :=
+  let s := sortBy (fun a b => decide (a ≤ b)) vals
+  let n := s.length
+  if n % 2 = 1 then s.getD (n / 2) 0 else (s.getD (n / 2 - 1) 0 + s.getD (n / 2) 0) / 2
+/-- `np.unique`: the sorted distinct values -/
+def aggUnique (vals : List Rat) : List Rat := (sortBy (fun a b => decide (a ≤ b)) vals).eraseDups
+/-- `np.unique(return_counts=True)[1]` -/
+def aggCounts (vals : List Rat) : List Nat := (aggUnique vals).map (fun u => vals.count u)
+
+/-- `argmax()`: `max(d, key=d.get)` over `d = asdict()` — the FIRST ID in view order with the largest value -/
+def argmax (view : List PyId) (f : PyId → Rat) : Option PyId :=
+  view.foldl (fun acc i => match acc with | none => some i | some b => if f b < f i then some i else some b) none
+/-- `argmin()`: `min(d, key=d.get)` — the first ID in view order with the smallest value -/
+def argmin (view : List PyId) (f : PyId → Rat) : Option PyId :=
+  view.foldl (fun acc i => match acc with | none => some i | some b => if f i < f b then some i else some b) none
+/-- the comparison `sorted(d, key=d.get, reverse=rev)` sorts by -/
+def argsortLe (f : PyId → Rat) (rev : Bool) (a b : PyId) : Bool :=
+  if rev then decide (f b ≤ f a) else decide (f a ≤ f b)
+/-- `argsort(reverse)`: `sorted` is stable, also with `reverse=True` -/
+def argsort (view : List PyId) (f : PyId → Rat) (rev : Bool) : List PyId := sortBy (argsortLe f rev) view
+
+/-- the member of a class of equal IDs that `duplicates()` does not report (specification only, used by
+    the statement of `duplicates_spec`; the driver runs `duplicates`): the smallest under Python's
+    ordering when the IDs can be sorted, else the first in dict order -/
+def rep (g : List PyId) : Option PyId :=
+  match sortedIds g with
+  | some l => l.head?
+  | none => g.head?
 
 /-! ### filterby / filterby_attr -/
 
